@@ -205,7 +205,7 @@ def extra(repo, reg, tier, seed):
               witness=w, confirmed=True if w else None, func=f"{LS}.serve_autocomplete",
               detail=f"bounded: {n} generated multi-file programs (the C05 model: USE graphs with ONLY lists and renames with and "
                      f"without ONLY, default and explicit accessibility, re-export, procedure-level USE, shadowing), {ns} completion "
-                     "requests after a typed prefix: the variables and procedures offered are exactly the accessible ones that "
+                     "requests after a typed prefix: the variables, procedures and derived types offered are exactly the accessible ones that "
                      "start with the prefix, under their local names")
     it.count = ns
     items.append(it)
